@@ -74,6 +74,17 @@ func buildOverlay(o *Options, harnessNames map[string][]string) (map[string]stri
 			os.WriteFile(rtxf, []byte(strings.Replace(string(rtx), "package PKGNAME", "package "+name, 1)), 0o644)
 			ov[filepath.Join(o.Repo, p, "zz_verif_rtx.go")] = rtxf
 		}
+		// generated generic-instance constructors + per-type entry points (when the package's harness uses vfGen)
+		if bases := perTypeBases(files); len(bases) > 0 || usesGen(files) {
+			gf := filepath.Join(wd, "gen_nodes.go")
+			entries, err := generateNodes(o.Repo, name, bases, gf)
+			if err != nil {
+				return nil, err
+			}
+			ov[filepath.Join(o.Repo, p, "zz_verif_gen_nodes.go")] = gf
+			harnessNames[p] = append(harnessNames[p], entries...)
+			sort.Strings(harnessNames[p])
+		}
 		// registry (always present so that rt.go compiles)
 		var sb strings.Builder
 		sb.WriteString("package " + name + "\n\nvar vfHarnesses = map[string]func(){\n")
@@ -89,6 +100,29 @@ func buildOverlay(o *Options, harnessNames map[string][]string) (map[string]stri
 		ov[filepath.Join(o.Repo, p, "zz_verif_replay_test.go")] = tf
 	}
 	return ov, nil
+}
+
+func perTypeBases(files []string) []string {
+	re := regexp.MustCompile(`(?m)^func vfPerType_([A-Za-z0-9]+)\(typ string\)`)
+	var out []string
+	for _, f := range files {
+		b, _ := os.ReadFile(f)
+		for _, m := range re.FindAllStringSubmatch(string(b), -1) {
+			out = append(out, m[1])
+		}
+	}
+	sort.Strings(out)
+	return out
+}
+
+func usesGen(files []string) bool {
+	for _, f := range files {
+		b, _ := os.ReadFile(f)
+		if strings.Contains(string(b), "vfGen{") {
+			return true
+		}
+	}
+	return false
 }
 
 func load(o *Options, ov map[string]string) (*ssa.Program, []*ssa.Package, map[string]*ssa.Package, error) {
